@@ -79,6 +79,7 @@ class CGWorld(World):
         k["bkind"] = rng.choice(["random", "random", "random", "zero", "eigvec"])
         k["interfere"] = rng.random() < 0.15
         k["x_narrow"] = rng.random() < 0.06
+        k["views"] = rng.random() < 0.2
         k["x0kind"] = rng.choice(["zero", "zero", "random", "random", "exact"])
         cplx = k["complex"]
         dt = {("double", False): "float64", ("double", True): "complex128",
@@ -220,6 +221,10 @@ class CGWorld(World):
             # to the caller's precision); only where the solution is written is judged
             x_caller = x_caller.astype(np.complex64 if np.iscomplexobj(x_caller) else np.float32)
             stats["buggify.x_narrower_than_b"] += 1
+        if k.get("views"):
+            x_caller = common.as_view(x_caller)
+            b = common.as_view(b)
+            stats["buggify.caller_arrays_are_views"] += 1
         x0 = x_caller.copy()
         Pd = None
         if plan.get("P") is not None:
@@ -501,7 +506,7 @@ class CGWorld(World):
         res.fingerprint = codec.json_digest([
             k["klass"], prec, bool(k["complex"]), n, k["family"], k["Aform"], k["Pkind"], k.get("Pform"),
             k["shape"], k["bkind"], k["x0kind"], k.get("A_ret"), k.get("P_ret"), bool(k.get("interfere")),
-            bool(k.get("x_narrow")), plan["max_iter"],
+            bool(k.get("x_narrow")), bool(k.get("views")), plan["max_iter"],
             plan["tol"] > 0, [f["kind"] for f in plan.get("faults", [])], common.compress_actions(acts),
         ])
         if Aproxy is not None:
